@@ -23,18 +23,29 @@ def cks_uf(alg, w, prefix):
     return f(*[bv(b, 8) for b in prefix])
 
 
-def cks_hints(spec, packet):
+def cks_hints(spec, packet, h=None, depth=0):
     """result width/signedness of the checksum service an emitted encoder asks for, by algorithm name as written in the
     emitted lookup (the contract types a service by its result type; only C++ spells that type in the emitted code).
-    '*' is the fallback for a name the declaration does not mention."""
-    h = {'*': (4, False)}
-    for f in packet.fields:
-        sem = spec.resolve(f)
-        if sem[0] == 'checksum':
-            v = (WIDTH[sem[1]], sem[1].startswith('i'))
-            if '*' not in h or h['*'] == (4, False):
-                h['*'] = v
-            h.setdefault(sem[2], v)
+    Nested packets (objects, inline objects, match payloads) are included.  '*' is the fallback for a name the declaration
+    does not mention."""
+    top = h is None
+    if top:
+        h = {}
+    if depth <= 4:
+        for f in packet.fields:
+            sem = spec.resolve(f)
+            if sem[0] == 'checksum':
+                v = (WIDTH[sem[1]], sem[1].startswith('i'))
+                h.setdefault('*', v)
+                h.setdefault(sem[2], v)
+            elif sem[0] == 'obj' and sem[1] is not None:
+                cks_hints(spec, sem[1], h, depth + 1)
+            elif sem[0] == 'match':
+                for _, pn in f.pairs:
+                    if spec.packet(pn) is not None:
+                        cks_hints(spec, spec.packet(pn), h, depth + 1)
+    if top:
+        h.setdefault('*', (4, False))
     return h
 
 
@@ -44,8 +55,11 @@ def ref_enc(ctx, packet, msg, out=None, path=''):
     le = spec.little()
     if out is None:
         out = []
-    # length-of: the target's encoding must be known first -> encode fields in order, patch after
-    patches = []
+    # A length-of field is written as a zero placeholder and back-patched as soon as its target has been written (that is what
+    # every emitted encoder does); a checksum is the algorithm's value over the bytes that are in the output buffer when the
+    # field is reached - the whole buffer, the enclosing packets' bytes included, with a length field whose target is still
+    # being written counting as its zero placeholder.
+    pending = {}
     spans = {}
     for f in packet.fields:
         sem = spec.resolve(f)
@@ -59,33 +73,42 @@ def ref_enc(ctx, packet, msg, out=None, path=''):
                 enc_elem(ctx, f, sem, v, out, '%s[%d]' % (p, i))
         elif sem[0] == 'lengthof':
             w = WIDTH[sem[1]]
-            patches.append((len(out), w, (sem[2], f.name)))
-            out.extend([None] * w)
             ctx.layout.append((p, 'lengthof', start, w))
+            if sem[2] in spans:
+                a0, b0 = spans[sem[2]]
+                out.extend(bytes_of(b0 - a0, w, le))
+                msg.wire[f.name] = z3.BitVecVal(b0 - a0, 8 * w)
+            else:
+                pending[sem[2]] = (len(out), w, f.name)
+                out.extend([PENDING] * w)
         elif sem[0] == 'checksum':
             w = WIDTH[sem[1]]
             val = msg.v[f.name]
-            # note: a checksum placed after a length-of field sees the final (patched) bytes only
-            # if the length is patched before; the family keeps length-of targets before checksums
-            patches.append((len(out), w, ('cks', sem[2], val, f.name)))
-            out.extend([None] * w)
+            if ctx.cks_registered:
+                val = cks_uf(sem[2], w, [z3.BitVecVal(0, 8) if x is PENDING else x for x in out])
+            out.extend(bytes_of(val, w, le))
+            msg.wire[f.name] = bv(val, 8 * w)
             ctx.layout.append((p, 'checksum', start, w))
         else:
             enc_elem(ctx, f, sem, msg.v[f.name], out, p)
         spans[f.name] = (start, len(out))
-    # resolve patches in order (length first, so that a later checksum covers patched bytes)
-    for pos, w, what in patches:
-        if isinstance(what, tuple) and what[0] == 'cks':
-            _, alg, val, fname = what
-            if ctx.cks_registered:
-                val = cks_uf(alg, w, list(out[:pos]))
-            out[pos:pos + w] = bytes_of(val, w, le)
-            msg.wire[fname] = bv(val, 8 * w)
-        else:
-            a, b = spans[what[0]]
-            out[pos:pos + w] = bytes_of(b - a, w, le)
-            msg.wire[what[1]] = z3.BitVecVal(b - a, 8 * w)
+        if f.name in pending:
+            pos, w, lname = pending.pop(f.name)
+            out[pos:pos + w] = bytes_of(len(out) - start, w, le)
+            msg.wire[lname] = z3.BitVecVal(len(out) - start, 8 * w)
+    for tgt, (pos, w, lname) in pending.items():
+        # target never declared: the placeholder stays
+        out[pos:pos + w] = bytes_of(0, w, le)
+        msg.wire[lname] = z3.BitVecVal(0, 8 * w)
     return out
+
+
+class _Pending:
+    def __repr__(self):
+        return 'PENDING'
+
+
+PENDING = _Pending()
 
 
 def enc_elem(ctx, f, sem, v, out, p):
